@@ -589,7 +589,7 @@ impl<'a> Run<'a> {
         w(|w| {
             let done: Vec<u32> = w.completed_in_call.clone();
             for id in done {
-                if w.children[id as usize].drops != 1 {
+                if w.children[id as usize].drops != 1 && !w.children[id as usize].no_drop_glue {
                     w.violate(
                         "C05",
                         "finished-child-not-released",
@@ -1232,6 +1232,9 @@ impl<'a> Run<'a> {
             // C06
             for i in 0..w.children.len() {
                 let c = &w.children[i];
+                if c.no_drop_glue {
+                    continue;
+                }
                 if c.drops != 1 {
                     let (d, m, acc) = (c.drops, c.mode, c.accepted);
                     // a RawItem never turned into a future by for_each_concurrent has no future to drop
@@ -1357,6 +1360,9 @@ fn probe_vtable(kind: u8, item: *const (), header: *const ()) {
 }
 
 thread_local! {
+    /// crash hunt (./check): with SX_TRACE_DIR set, every thread writes the execution it is about
+    /// to run into its own file first, so that a crash of the process can be attributed
+    static TRACE: std::cell::RefCell<Option<Option<std::fs::File>>> = const { std::cell::RefCell::new(None) };
     pub static QUIET: std::cell::Cell<bool> = const { std::cell::Cell::new(false) };
     /// data pointers of child wakers held by the harness outside `children[].waker` (pool)
     pub static EXTRA_WAKERS: std::cell::RefCell<Vec<usize>> = const { std::cell::RefCell::new(Vec::new()) };
@@ -1400,7 +1406,26 @@ pub fn reset_world(prefix: &[u8], horizon: usize, log_on: bool) {
 }
 
 /// Run one execution of `cfg` under the choice prefix `prefix`.
+fn trace_execution(cfg: &Cfg, prefix: &[u8]) {
+    TRACE.with(|t| {
+        let mut t = t.borrow_mut();
+        if t.is_none() {
+            *t = Some(std::env::var("SX_TRACE_DIR").ok().and_then(|d| {
+                let id = format!("{:?}", std::thread::current().id()).replace(|c: char| !c.is_ascii_digit(), "");
+                std::fs::File::create(format!("{}/w{}", d, id)).ok()
+            }));
+        }
+        if let Some(Some(f)) = t.as_ref() {
+            use std::os::unix::fs::FileExt;
+            let ch: Vec<String> = prefix.iter().map(|c| c.to_string()).collect();
+            let line = format!("{}|{}\n{:200}", cfg.name, ch.join(","), "");
+            let _ = f.write_at(line.as_bytes(), 0);
+        }
+    });
+}
+
 pub fn run(cfg: &Cfg, prefix: &[u8], log_on: bool) -> ExecResult {
+    trace_execution(cfg, prefix);
     QUIET.with(|q| q.set(true));
     let r = run_inner(cfg, prefix, log_on);
     QUIET.with(|q| q.set(false));
@@ -1448,7 +1473,7 @@ impl<'a> Run<'a> {
         let pre: Vec<u32> = cfg.prefill.iter().map(|s| self.new_child(s)).collect();
         let by_ctor = matches!(
             cfg.kind,
-            Kind::FubIter(_) | Kind::FuIter(_) | Kind::FobIter(_) | Kind::FoIter(_) | Kind::Mb(_) | Kind::Mu(_) | Kind::Ja(_) | Kind::Tja(_) | Kind::JaP(_) | Kind::TjaP(_)
+            Kind::FubIter(_) | Kind::FuIter(_) | Kind::FobIter(_) | Kind::FoIter(_) | Kind::Mb(_) | Kind::Mu(_) | Kind::Ja(_) | Kind::Tja(_) | Kind::JaP(_) | Kind::TjaP(_) | Kind::JaN(_) | Kind::TjaN(_)
         );
         let subj = build(cfg.kind, if by_ctor { &pre } else { &[] });
         match subj {
